@@ -123,10 +123,7 @@ func VerifHarness_C10_ops() {
 		switch verifConc(ndInt("op", 0, nops-1)) {
 		case 0:
 			verifCase("set")
-			v := verifValue("val", 1+verifTier())
-			if verifTier() == 0 {
-				verifAssume(len(v) == 1)
-			}
+			v := verifValueN("val", 1) // longer values: C10_roundtrip, C10_copy
 			fm.SetBytes(Tag(t), v)
 			model[sec].set(t, v)
 		case 1:
